@@ -358,7 +358,7 @@ func c01check(c *ctx, cases []c01case) {
 	res := c.res
 	obs := make([]c01obs, len(cases))
 	var wg sync.WaitGroup
-	sem := make(chan struct{}, 16)
+	sem := make(chan struct{}, vlib.Conc(16))
 	for i := range cases {
 		wg.Add(1)
 		sem <- struct{}{}
